@@ -325,7 +325,7 @@ func Run(cfg hx.Config) error {
 	if err != nil {
 		return err
 	}
-	r.Rule = "scripted schedules: every goroutine inside fetchInto/fetchUnlinkedFile is parked at the hook points and released one atomic section at a time (seeded choice among the enabled sections; 1-3 digests plus a non-tar blob, up to 64 tasks, failing servers, bad URIs, cancellations of waiting tasks, forced GC); one protocol line per section, answer = outcome + every rc's count/file state + arena entry + server request count of the key; all such lines are non-trivial. Free runs: 1-64 users call RealizeDescriptions/Close on overlapping layer sets under GOMAXPROCS 1-16 with seeded yields, latency, failing layers and cancellations; checked directly: read-back of every held layer, no request for a digest while a user holds it, arena map/descriptors/directory/goroutines after all closes."
+	r.Rule = "scripted schedules: every goroutine inside fetchInto/fetchUnlinkedFile is parked at the hook points and released one atomic section at a time (seeded choice among the enabled sections; 1-3 digests plus a non-tar blob, up to 64 tasks, failing servers, bad URIs, cancellations of waiting tasks, forced GC); one protocol line per section, answer = outcome + every rc's count/file state + arena entry + server request count of the key; all such lines are non-trivial. Free runs: 1-64 users call RealizeDescriptions/Close on overlapping layer sets under GOMAXPROCS 1-16 with seeded yields, latency, failing layers and cancellations; checked directly: read-back of every held layer, no request for a digest while a user holds it, arena map/descriptors/directory/goroutines after all closes. Old interface: FetchProxy.Realize([]*claircore.Layer) with layer lists that repeat digests at arbitrary positions, checked per slot (initialised, the slot's digest, its bytes), arena clean after Close; non-trivial = the list repeats a digest."
 	nop := zerolog.Nop()
 	zlog.Set(&nop)
 	rnd := hx.NewRand(cfg.Seed)
@@ -362,6 +362,7 @@ func Run(cfg hx.Config) error {
 	r.Notes["corpus_scripts"] = names
 
 	freeRuns(r, cfg, rnd)
+	oldAPICases(r, cfg, rnd)
 
 	if n := settleGoroutines(base, 2); n > base+2 {
 		r.Fail("", fmt.Sprintf("goroutines-leaked before=%d after=%d", base, n))
